@@ -17,11 +17,13 @@ Record variant := {
   d12_accept_visible_ep : bool; (* accept's peer endpoint is the NAT view     *)
   d13_acceptor_close : bool;  (* acceptor::close() really closes              *)
   d14_nat_syn_only : bool;    (* NAT rewrites visible_ep[0] on SYN only       *)
-  d18_accept_mss : bool       (* accepted socket takes its MSS from path_mtu  *)
+  d18_accept_mss : bool;      (* accepted socket takes its MSS from path_mtu  *)
+  d26_writer_wakeup : bool    (* an ACK wakes a writer that WAS blocked and no longer is *)
 }.
 
 Definition pinned : variant :=
   {| d2_clock_fixed := false; d17_resolver_back := false; d1_bytes_sent_init := false;
      d15_udp_release_whole := false; d16_udp_close_clears := false;
      d7_wakeup_fixed := false; d6_close_clears := false; d12_accept_visible_ep := false;
-     d13_acceptor_close := false; d14_nat_syn_only := false; d18_accept_mss := false |}.
+     d13_acceptor_close := false; d14_nat_syn_only := false; d18_accept_mss := false;
+     d26_writer_wakeup := false |}.
